@@ -44,11 +44,24 @@ pub struct Case {
     pub path: &'static str,
     pub tls: bool,
     pub peer: &'static str,
+    /// extra header set: "" or a name from HEADER_SETS
+    pub headers: &'static str,
 }
+
+/// header sets: well-typed `HeaderValue`s need not be visible ASCII
+pub const HEADER_SETS: [(&str, &[(&str, &[u8])]); 7] = [
+    ("connection-non-ascii", &[("connection", b"\xff")]),
+    ("connection-latin1-list", &[("connection", b"keep-alive, ferm\xe9"), ("keep-alive", b"timeout=5")]),
+    ("te-non-ascii", &[("te", b"\xfftrailers")]),
+    ("host-non-ascii", &[("host", b"ex\xe4mple.com")]),
+    ("upgrade-and-connection", &[("connection", b"upgrade"), ("upgrade", b"\xfe\xff")]),
+    ("transfer-encoding-odd", &[("transfer-encoding", b"chunked, \x80")]),
+    ("many-values", &[("x-a", b"\x80\x81"), ("content-type", b"text/\xe9"), ("accept", b"*/*\xfd")]),
+];
 
 impl Case {
     fn to_json(&self) -> Value {
-        json!({"engine": "panics", "version": self.version, "method": self.method, "uri": self.uri, "via": self.path, "tls": self.tls, "peer": self.peer})
+        json!({"engine": "panics", "version": self.version, "method": self.method, "uri": self.uri, "via": self.path, "tls": self.tls, "peer": self.peer, "headers": self.headers})
     }
 }
 
@@ -137,8 +150,25 @@ pub fn gen_cases(thorough: bool) -> Vec<Case> {
                             let k = i + mi + vi + pi + version as usize;
                             let keep = thorough || (peer == "echo" && !tls && (uc != &"absolute" || k % 3 == 0)) || k % 17 == 0 || (*hc == "bracketed-non-ip" && peer == "echo" && k % 2 == 0);
                             if keep {
-                                v.push(Case { version, method, uri: uri.clone(), uri_class: uc, host_class: hc, path: via, tls, peer });
+                                v.push(Case { version, method, uri: uri.clone(), uri_class: uc, host_class: hc, path: via, tls, peer, headers: "" });
                             }
+                        }
+                    }
+                }
+            }
+        }
+    }
+    // header sets whose values are legal HeaderValues but not visible ASCII, on a few URIs, every via and version
+    for (name, _) in HEADER_SETS {
+        for uri in ["http://example.com/a/b?x=1", "https://example.com/", "http://[::1]:8080/"] {
+            for version in [10u8, 11, 2] {
+                for via in VIAS {
+                    for method in ["GET", "POST", "CONNECT"] {
+                        for tls in [false, true] {
+                            if !thorough && (tls != uri.starts_with("https") || method == "CONNECT" && version != 2) {
+                                continue;
+                            }
+                            v.push(Case { version, method, uri: uri.to_string(), uri_class: "absolute", host_class: "dns", path: via, tls, peer: "echo", headers: name });
                         }
                     }
                 }
@@ -211,6 +241,13 @@ pub async fn run_case(c: &Case) -> (String, Vec<String>) {
         *r.uri_mut() = uri;
         *r.version_mut() = version_of(c.version);
         r.headers_mut().insert("x-id", http::HeaderValue::from(9u64));
+        if let Some((_, set)) = HEADER_SETS.iter().find(|(n, _)| *n == c.headers) {
+            for (k, v) in set.iter() {
+                if let Ok(hv) = http::HeaderValue::from_bytes(v) {
+                    r.headers_mut().append(http::header::HeaderName::from_static(k), hv);
+                }
+            }
+        }
         r
     };
     let tls_cfg = if c.tls { Some(client_tls(&["h2", "http/1.1"])) } else { None };
@@ -346,6 +383,9 @@ pub fn run(args: &Args) -> Report {
         p.count(&format!("via_{}", c.path), 1);
         p.count(&format!("result_{}", res.split(':').next().unwrap_or("?")), 1);
         p.count(&format!("profile_{profile}"), 1);
+        if !c.headers.is_empty() {
+            p.count("cases_with_non_ascii_header_values", 1);
+        }
         if res == "hang" {
             p.violation(format!("request-never-resolves:{}:{}", c.path, c.peer), format!("{} | case {}", res, c.to_json()), c.to_json());
         }
@@ -362,6 +402,7 @@ pub fn run(args: &Args) -> Report {
             } else {
                 class.clone()
             };
+            let dim = if c.headers.is_empty() { dim } else { format!("{dim} headers={}", c.headers) };
             p.violation(
                 format!("panic@{loc_short}:{dim}:{profile}{}", if in_lib { "" } else { ":outside-hyperdriver" }),
                 format!("{pn} | via {} tls={} peer={} | {class} | case {}", c.path, c.tls, c.peer, c.to_json()),
